@@ -7,8 +7,8 @@ CfgPoint == [init |-> 2, min |-> 2, max |-> 2]            \* (5k, 5k, 5k): nothi
 F2 == {"f1", "f2"}
 F3 == {"f1", "f2", "f3"}
 \* what int(NaN) / int(+Inf) / negative deltas / huge gaps may turn into: anything
-DV == {-7, 0, 1, 2, 3, 4, 5, 99}
-LV == {-7, 0, 1, 3, 99}
+DV == {-7, 0, 2, 3, 4, 99}
+LV == {-7, 3, 99}
 ASSUME EnvelopeThm
 ASSUME TableThm
 =============================================================================
